@@ -29,6 +29,7 @@ type c08Scenario struct {
 	keyed   bool
 	writers [][]model.Act
 	fails   []bool
+	full    bool // only block 0 exists and it is full (R0 + 16383 filler rows): an insert opens block 1
 }
 
 func c08Scenarios() []c08Scenario {
@@ -49,6 +50,8 @@ func c08Scenarios() []c08Scenario {
 		{name: "two-inserts||delete", writers: [][]model.Act{{{Op: "insert", W: []model.Write{a(7)}}, {Op: "insert", W: []model.Write{a(8)}}}, {{Op: "del", Off: R0}}}},
 		{name: "three-writers", writers: [][]model.Act{{put(R0, a(7), b(1))}, {put(R0, a(5))}, {put(R0, b(2)), put(R1, am(1))}}},
 		{name: "commit||rollback", writers: [][]model.Act{{put(R0, a(7), b(1))}, {put(R0, a(99)), {Op: "insert", W: []model.Write{a(1)}}}}, fails: []bool{false, true}},
+		// the insert reserves the first offset of a block whose columns do not exist yet
+		{name: "insert-opening-a-new-block||put", full: true, writers: [][]model.Act{{{Op: "insert", W: []model.Write{a(7), s("n", false)}}}, {put(R0, a(9), b(1))}}},
 		{name: "keyed/upsert-new||delete||update", keyed: true, writers: [][]model.Act{
 			{{Op: "upsertkey", Key: "k", W: []model.Write{a(4)}}}, {{Op: "deletekey", Key: "s1"}}, {{Op: "querykey", Key: "s0", W: []model.Write{am(1), b(1)}}}}},
 	}
@@ -124,6 +127,17 @@ func (sc c08Scenario) build(cuts bool) *eng.SchedInstance {
 			R0: {{Col: "key", V: model.Val{S: "s0"}}, {Col: "a", V: model.Val{N: 2}}, {Col: "b", V: model.Val{N: 0}}},
 			R1: {{Col: "key", V: model.Val{S: "s1"}}, {Col: "a", V: model.Val{N: 2}}, {Col: "b", V: model.Val{N: 0}}}})
 		sw.w.Commits, sw.w.Emitters = nil, nil
+	} else if sc.full {
+		sw = newSWorld(model.Config{Cols: cols}, nil)
+		sw.w.SeedReplay(map[uint32][]model.Write{R0: {{Col: "a", V: model.Val{N: 2}}, {Col: "b", V: model.Val{N: 0}}, {Col: "s", V: model.Val{S: "s"}}}})
+		// filler rows (not in the model; the oracle counts them) occupy the rest of block 0
+		sw.w.C.Query(func(txn *column.Txn) error {
+			for i := 0; i < 16383; i++ {
+				txn.Insert(func(r column.Row) error { r.SetInt("a", 1); return nil })
+			}
+			return nil
+		})
+		sw.w.Commits, sw.w.Emitters = nil, nil
 	} else {
 		sw = newSWorld(model.Config{Cols: cols}, []model.Write{{Col: "a", V: model.Val{N: 2}}, {Col: "b", V: model.Val{N: 0}}, {Col: "s", V: model.Val{S: "s"}}})
 		sw.w.Emitters = nil
@@ -177,6 +191,21 @@ func (sc c08Scenario) build(cuts bool) *eng.SchedInstance {
 			restored := implRows(t)
 			kinds := func(c string) *model.KindDesc { return w.M.Col(c) }
 			outcome := ""
+			if sc.full {
+				filler := 0
+				for off, row := range restored {
+					if off < 16384 && off != R0 {
+						if fmt.Sprint(row) == fmt.Sprint(map[string]model.Val{"a": {N: 1}}) {
+							filler++
+						}
+						delete(restored, off)
+					}
+				}
+				if filler != 16383 {
+					vs = append(vs, eng.Violation{Assert: "cut/untouched-rows", Witness: "rows that no transaction touched differ in the restored collection",
+						Detail: fmt.Sprintf("%d of the 16383 filler rows of block 0 were restored with their value", filler)})
+				}
+			}
 			for _, blk := range []uint32{0, 1} {
 				// apply order of this block = emission order of its commits
 				var order []int
@@ -282,7 +311,7 @@ func init() {
 	eng.Register(&eng.Check{
 		Prop:  "C08",
 		Level: "model_checking", NodeStates: true,
-		Rule: "SCHED: a snapshot thread beside 2-3 committing transactions (two-column and one-column updates of one row, merges in both blocks, delete, inserts, rollback, keyed upsert/delete), " +
+		Rule: "SCHED: a snapshot thread beside 2-3 committing transactions (two-column and one-column updates of one row, merges in both blocks, delete, inserts (also one that opens a new block), rollback, keyed upsert/delete), " +
 			"every interleaving at every lock/atomic operation of the real commit and snapshot code up to the preemption bound; after each execution the snapshot is restored into a fresh " +
 			"collection and, per block, must equal the model after some prefix of the commits applied to that block (apply order = order at the recording logger, under the latch), at least " +
 			"those acknowledged before Snapshot was called and none that started after it returned; Snapshot and Restore must return nil and not panic. states = decision nodes; distinct = " +
@@ -291,17 +320,17 @@ func init() {
 		Budget:      budget(170*time.Second, 28*time.Minute),
 		Bounds: func(tier string) map[string]any {
 			if tier == "quick" {
-				return map[string]any{"preemption_bound": "2 (snapshot + 2 writers), 1 (snapshot + 3 writers)", "threads": "snapshot + 2-3 writers"}
+				return map[string]any{"preemption_bound": "2 (snapshot + 2 writers), 1 (snapshot + 3 writers; the 16K-row scenario)", "threads": "snapshot + 2-3 writers"}
 			}
-			return map[string]any{"preemption_bound": "3 (snapshot + 2 writers), 2 (snapshot + 3 writers)", "threads": "snapshot + 2-3 writers"}
+			return map[string]any{"preemption_bound": "3 (snapshot + 2 writers), 2 (snapshot + 3 writers; the 16K-row scenario)", "threads": "snapshot + 2-3 writers"}
 		},
 		Units: func(tier string) []eng.Unit {
 			var scs []scenario
 			for _, sc := range c08Scenarios() {
 				sc := sc
 				b := 2
-				if len(sc.writers) > 2 {
-					b = 1
+				if len(sc.writers) > 2 || sc.full {
+					b = 1 // (full: 16K rows are built, snapshotted and restored in every execution)
 				}
 				if tier != "quick" {
 					b++
